@@ -28,6 +28,7 @@ type step struct {
 	data  []byte
 	n     int
 	mode  string
+	df    string // digest function asked for (upload, stat)
 	gated bool
 	fd    *fdCtl     // descriptor used (close/read/write, path ops via fd)
 	rd    *readerCtl // frozen reader used
@@ -52,7 +53,7 @@ func (w *world) apply(s step) {
 		w.injectReadFault(s.f)
 		return
 	}
-	o := &opCtl{op: s.kind, f: s.f, mask: s.mask, trunc: s.trunc, off: s.off, data: s.data, n: s.n, mode: s.mode, gated: s.gated}
+	o := &opCtl{op: s.kind, f: s.f, mask: s.mask, trunc: s.trunc, off: s.off, data: s.data, n: s.n, mode: s.mode, df: s.df, gated: s.gated}
 	if s.fd != nil {
 		o.fd = s.fd
 		s.fd.busy = true
@@ -230,15 +231,21 @@ func (w *world) enabled(lv level, nfiles int, rng *rand.Rand) []step {
 		if !lv.enum {
 			add(step{kind: "getattr", f: f})
 		}
-		add(step{kind: "stat", f: f})
+		// the digest function asked for varies: a memoised digest of one
+		// function must not be handed out for another one
+		df := ""
+		if !lv.enum {
+			df = []string{"sha256", "sha256", "md5"}[rng.Intn(3)]
+		}
+		add(step{kind: "stat", f: f, df: df})
 		// uploads and frozen readers
 		if uploads < 2 {
 			if lv.enum {
 				add(step{kind: "upload", f: f, mode: "ok", gated: true})
 			} else {
 				mode := []string{"ok", "ok", "ok", "fail_after", "fail_before"}[rng.Intn(5)]
-				add(step{kind: "upload", f: f, mode: mode, gated: true})
-				add(step{kind: "upload", f: f, mode: mode, gated: rng.Intn(2) == 0})
+				add(step{kind: "upload", f: f, mode: mode, df: df, gated: true})
+				add(step{kind: "upload", f: f, mode: mode, df: []string{"sha256", "md5"}[rng.Intn(2)], gated: rng.Intn(2) == 0})
 			}
 		}
 		if fopens < 2 && !lv.enum {
@@ -442,6 +449,18 @@ func (s sc) stat(f int) {
 	}
 }
 
+func (s sc) statWith(f int, df string) {
+	if s.exists(f) {
+		s.w.apply(step{kind: "stat", f: f, df: df})
+	}
+}
+
+func (s sc) uploadWith(f int, df string) {
+	if s.exists(f) {
+		s.w.apply(step{kind: "upload", f: f, mode: "ok", df: df})
+	}
+}
+
 func (s sc) upload(f int, mode string, gated bool) *opCtl {
 	if !s.exists(f) {
 		return nil
@@ -642,6 +661,29 @@ var scenarios = []scenario{
 		s.open(0, "w", true)
 		s.close(0, "w")
 		s.upload(0, "ok", false)
+	}},
+	{"digest-function-changes", 1, func(s sc) {
+		s.create(0, "w", 0)
+		s.write(0, "w", 0, 1, 2, 3)
+		s.close(0, "w")
+		s.uploadWith(0, "sha256") // memoises the SHA-256 digest
+		s.uploadWith(0, "md5")    // must be the MD5 digest of the same bytes
+		s.statWith(0, "sha256")
+		s.statWith(0, "md5")
+		s.uploadWith(0, "md5")
+		s.uploadWith(0, "sha256")
+	}},
+	{"contents-outlive-the-last-name", 1, func(s sc) {
+		s.create(0, "rw", 0)
+		s.write(0, "rw", 0, 1, 2, 3)
+		s.unlink(0) // only the descriptor is left: the contents stay
+		s.read(0, "rw", 0, 6)
+		s.getattr(0)
+		s.write(0, "rw", 3, 2)
+		s.fopen(0) // waits for the writer
+		s.close(0, "rw")
+		s.fread(0, 0, 6) // only the frozen reader is left
+		s.fclose(0)
 	}},
 	{"dead-file-calls", 1, func(s sc) {
 		s.create(0, "r", 1)
